@@ -32,7 +32,7 @@ def configs(q):
             ('blobs', blob)]
 
 
-BUDGET = {'two-savepoints': 110000}
+BUDGET = {'two-savepoints': 90000, 'repeated-rollback': 90000, 'reachability': 70000, 'conflict-at-commit': 70000, 'blobs': 60000}
 
 
 def run(ctx):
